@@ -4,7 +4,7 @@ import json, os, shutil
 import vlib
 from vlib import Check, ToolError, run_tlc, axv, last_json, write_cfg, tla_set
 
-AS_BUILT = ["UpdateStampsCreator", "NoWriteSetValidation"]   # exact deviations recorded in known_findings.json
+AS_BUILT = ["UpdateStampsCreator", "NoWriteSetValidation", "CheckpointNotAtomic"]   # exact deviations recorded in known_findings.json
 
 
 def dev_cfg(wd, devs, name):
@@ -16,7 +16,7 @@ def validate(c, wd, trace, tag):
     """Accepts the trace if it is a behaviour of Db.tla under the as-built deviations or under any subset of them
     (so that repairing a recorded deviation never raises an alarm)."""
     tried = []
-    subsets = [AS_BUILT, [], [AS_BUILT[0]], [AS_BUILT[1]]]
+    subsets = [AS_BUILT, [], [AS_BUILT[0]], [AS_BUILT[1]], AS_BUILT[:2]]
     last = None
     for devs in subsets:
         r = run_tlc("DbTrace", dev_cfg(wd, devs, tag + "-" + "".join(d[0] for d in devs)), workers=1, dfs=True,
@@ -33,8 +33,9 @@ def validate(c, wd, trace, tag):
 
 def run_kind(c, wd, prop, kind, seed, segments, extra=()):
     tp = os.path.join(wd, "%s-%d.ndjson" % (kind, seed))
-    _, so, _ = axv(["db", "--kind", kind, "--seed", seed, "--segments", segments, "--out", tp,
-                    "--dir", os.path.join(wd, "db-" + kind)] + list(extra), timeout=3000)
+    sub = ["crash"] if kind.startswith("crash") else ["db", "--kind", kind]
+    _, so, _ = axv(sub + ["--seed", seed, "--segments", segments, "--out", tp,
+                          "--dir", os.path.join(wd, "db-" + kind)] + list(extra), timeout=3000)
     st = last_json(so)
     ok, r, devs = validate(c, wd, tp, "%s%d" % (kind, seed))
     c.add("traces_validated_against_impl", st["segments"])
@@ -43,7 +44,7 @@ def run_kind(c, wd, prop, kind, seed, segments, extra=()):
     c.cov.setdefault("kinds", {}).setdefault(kind, {"segments": 0, "stmts": 0, "engine_errors": 0})
     k = c.cov["kinds"][kind]
     k["segments"] += st["segments"]; k["stmts"] += st["stmts"]; k["engine_errors"] += st["errors"]
-    for key in ("nontrivial", "overlaps", "plan_pairs", "reopens", "vacuums", "configs"):
+    for key in ("nontrivial", "overlaps", "plan_pairs", "reopens", "vacuums", "configs", "inputs", "images", "index_scans", "enumerated"):
         if key in st:
             c.add(key, st[key])
     if st.get("hung"):
